@@ -1,4 +1,7 @@
+mod c02;
 mod c05;
+mod schema;
+mod uni;
 mod c08;
 mod c09;
 mod seed;
@@ -6,6 +9,9 @@ mod c10;
 mod c11;
 mod corpus;
 mod front;
+mod genr;
+mod lang;
+mod print;
 mod reflex;
 mod common;
 mod prim;
@@ -16,6 +22,9 @@ use common::*;
 /// All sub-checks of a property for a tier.
 fn checks_for(property: &str, tier: Tier) -> Vec<Box<dyn Check>> {
     match property {
+        | "C01" => vec![Box::new(c02::Universe::new(c02::Mode::Safety, tier))],
+        | "C02" => vec![Box::new(c02::Universe::new(c02::Mode::Agreement, tier))],
+        | "C03" => vec![Box::new(c02::Universe::new(c02::Mode::Acceptance, tier))],
         | "C05" => c05::checks(),
         | "C08" => c08::checks(tier),
         | "C09" => c09::checks(tier),
@@ -39,6 +48,10 @@ const ALL: [&str; 20] = [
 
 fn find_check(name: &str, tier: Tier) -> Option<Box<dyn Check>> {
     for p in ALL {
+        // check names start with the lower-cased property id
+        if !name.starts_with(&p.to_lowercase()) {
+            continue;
+        }
         for c in checks_for(p, tier) {
             if c.name() == name {
                 return Some(c);
@@ -59,6 +72,46 @@ fn main() {
                 let r = s.run(b"", &[], 100000);
                 println!("run: {:?}", r);
             }
+        }
+        | Some("gen") => {
+            let thorough = args.get(3).map(|s| s == "thorough").unwrap_or(false);
+            for prof in genr::profiles(thorough) {
+                if args.get(2).map(|p| p != prof.name && p != "all").unwrap_or(false) {
+                    continue;
+                }
+                let g = genr::Gen::new(prof.menu.clone());
+                for root in &prof.roots {
+                    let t = std::time::Instant::now();
+                    let progs = g.programs(root, prof.size);
+                    println!("profile {} root {} size<={}: {} programs ({:.1}s)", prof.name, print::ct(root), prof.size, progs.len(), t.elapsed().as_secs_f64());
+                    if args.get(4).is_some() {
+                        for c in progs.iter().rev().take(3) {
+                            println!("{}", print::program(c, root, &print::Cfg::default()).0);
+                        }
+                    }
+                }
+            }
+        }
+        | Some("dump") => {
+            // dump universe programs a..b as files into a directory
+            let tier = Tier::parse(&args[2]);
+            let a: usize = args[3].parse().unwrap();
+            let b: usize = args[4].parse().unwrap();
+            let u = uni::universe(tier);
+            std::fs::create_dir_all(&args[5]).unwrap();
+            for i in a..b.min(u.len()) {
+                let (text, _) = print::program(&u[i].body, &u[i].root, &print::Cfg::default());
+                std::fs::write(format!("{}/p{}.zydeco", args[5], i), text).unwrap();
+            }
+        }
+        | Some("uni") => {
+            let tier = Tier::parse(args.get(2).map(String::as_str).unwrap_or("quick"));
+            let u = uni::universe(tier);
+            let mut m = std::collections::BTreeMap::new();
+            for p in &u {
+                *m.entry(p.origin.clone()).or_insert(0usize) += 1;
+            }
+            println!("{} programs: {:?}", u.len(), m);
         }
         | Some("worker") => {
             let tier = Tier::parse(&args[3]);
